@@ -89,6 +89,26 @@ Definition speech_blocks : list String.string := ["scene"; "narrative"; "summary
 
 Definition replace_sp (s : str) : str := replace_all [SP] (T_ "%20") s.
 
+(* apply-templates over a list of (already stripped) sibling nodes: each selected child is given its real
+   sibling context; [rec] is the template dispatcher at smaller fuel *)
+Fixpoint apply_sibs (rec : ctx -> nat -> xml -> str) (parent : str) (ind : nat) (sel : xml -> bool)
+                    (prevs : list str) (l : list xml) : str :=
+  match l with
+  | [] => []
+  | k :: r =>
+      (if sel k then rec (mkC (Some parent) prevs (elem_tags r) (match r with [] => false | _ => true end)) ind k else [])
+      ++ apply_sibs rec parent ind sel (match k with El t _ _ => t :: prevs | Tx _ => prevs end) r
+  end.
+
+(* a footnote's content block (mode="content") *)
+Definition note_block_fn (rec : ctx -> nat -> xml -> str) (ind : nat) (n : xml) : str :=
+  match n with
+  | El nt na nk =>
+      indent_str ind ++ T_ "FOOTNOTE " ++ attr_or_empty "marker" na ++ [NL]
+      ++ apply_sibs rec nt (S ind) (fun _ => true) [] (strip_kids nt nk)
+  | Tx _ => []
+  end.
+
 Section Un.
   (* string value of a node in the stripped tree *)
   Fixpoint string_value (fuel : nat) (x : xml) : str :=
@@ -114,6 +134,9 @@ Section Un.
                            end) (strip_kids tag kids)
     end.
 
+  Definition sub_notes (fuel : nat) (through_p : bool) (sub : list xml) : list xml :=
+    flat_map (fun k => match k with El t _ ks => notes_in fuel through_p t ks | Tx _ => [] end) sub.
+
   Definition first_child (t : String.string) (kids : list xml) : option xml :=
     find (fun k => match k with El x _ _ => str_eqb x (T_ t) | Tx _ => false end) kids.
   Definition children_named (t : String.string) (kids : list xml) : list xml :=
@@ -129,41 +152,12 @@ Section Un.
       | Tx s => text_out c s
       | El tag attrs kids0 =>
         let kids := strip_kids tag kids0 in
-        (* apply-templates over a list of (already stripped) sibling nodes *)
-        let apply := fun (parent : str) (ind : nat) =>
-          fix go (prevs : list str) (l : list xml) : str :=
-            match l with
-            | [] => []
-            | k :: r =>
-                un f (mkC (Some parent) prevs (elem_tags r) (match r with [] => false | _ => true end)) ind k
-                ++ go (match k with El t _ _ => t :: prevs | Tx _ => prevs end) r
-            end in
-        let all := fun ind => apply tag ind [] kids in
-        (* apply-templates select="<some children>" keeps each child's real sibling context *)
-        let apply_sel := fun (sel : xml -> bool) (ind : nat) =>
-          (fix go (prevs : list str) (l : list xml) : str :=
-            match l with
-            | [] => []
-            | k :: r =>
-                (if sel k then un f (mkC (Some tag) prevs (elem_tags r) (match r with [] => false | _ => true end)) ind k else [])
-                ++ go (match k with El t _ _ => t :: prevs | Tx _ => prevs end) r
-            end) [] kids in
+        let all := fun ind => apply_sibs (un f) tag ind (fun _ => true) [] kids in
+        let apply_sel := fun (sel : xml -> bool) (ind : nat) => apply_sibs (un f) tag ind sel [] kids in
         let is_named := fun (t : String.string) (k : xml) => match k with El x _ _ => str_eqb x (T_ t) | Tx _ => false end in
-        (* a footnote's content block (mode="content") *)
-        let note_block := fun (ind : nat) (n : xml) =>
-          match n with
-          | El nt na nk =>
-              indent_str ind ++ T_ "FOOTNOTE " ++ attr_or_empty "marker" na ++ [NL]
-              ++ (fix go (prevs : list str) (l : list xml) : str :=
-                    match l with
-                    | [] => []
-                    | k :: r => un f (mkC (Some nt) prevs (elem_tags r) (match r with [] => false | _ => true end)) (S ind) k
-                                ++ go (match k with El t _ _ => t :: prevs | Tx _ => prevs end) r
-                    end) [] (strip_kids nt nk)
-          | Tx _ => []
-          end in
+        let note_block := note_block_fn (un f) in
         let notes_of := fun (through_p : bool) (ind : nat) (sub : list xml) =>
-          concat (map (note_block ind) (flat_map (fun k => match k with El t _ ks => notes_in f through_p t ks | Tx _ => [] end) sub)) in
+          concat (map (note_block ind) (sub_notes f through_p sub)) in
         let own_notes := fun (through_p : bool) (ind : nat) => concat (map (note_block ind) (notes_in f through_p tag kids0)) in
         if str_eqb tag (T_ "meta") || (str_eqb tag (T_ "header") && parent_is c "judgment") then []
         else if tag_in tag containers then
